@@ -3,10 +3,11 @@
 
    `callables: HandleTable<Procedure<Aux>>` is keyed by Handle::from_str(name) (FNV-1a-32 of the name, Bits.v);
    the model is an association list handle -> procedure with at most one entry per handle (HandleTable::insert on a
-   present key overwrites key and value: C07).  A procedure = the registered name (what TaskFailure reports) and
+   present key overwrites key and value: C07); since d80a79a _register_native_function refuses a name whose handle
+   is held by an entry registered under another name (finding N-C18-1).  A procedure = the registered name (what TaskFailure reports) and
    the host function.  Not modelled: the allocation failure of HandleTable::grow (OutOfMemory). *)
 From Coq Require Import NArith ZArith List Bool.
-From Cao Require Import ListUtil Bits Stacks Vm.
+From Cao Require Import ListUtil CheckUtil Bits Stacks Vm.
 Import ListNotations.
 
 (* the host function behind a procedure: one of the library's natives, or a function of the embedder *)
@@ -35,16 +36,33 @@ Definition reg_insert (r : registry) (h : N) (p : proc) : registry := (h, p) :: 
 (* HandleTable::get *)
 Definition reg_get (r : registry) (h : N) : option proc := assoc h r.
 
-(* answer of a registration: Ok(()) or Err(InvalidArgument "Native function name may not begin with __") *)
-Inductive regres := RegOk | RegRejected.
+(* answer of a registration: Ok(()), Err(InvalidArgument "Native function name may not begin with __"), or
+   Err(InvalidArgument "Native function name .. collides with ..") (d80a79a) *)
+Inductive regres := RegOk | RegRejected | RegCollides.
 
-(* Vm::_register_native_function (private: used by register_native_stdlib) *)
+Definition name_eqb (a b : list N) : bool := list_eqb N.eqb a b.
+
+(* Vm::_register_native_function (private: used by register_native_stdlib). d80a79a: the handle is looked up first;
+   an entry registered under a DIFFERENT name is kept and the registration fails; the same name replaces.
+   (Before: the entry was overwritten whatever its name, finding N-C18-1.) *)
 Definition register_private (r : registry) (name : list N) (f : hostfn) : registry * regres :=
-  (reg_insert r (handle_of_bytes name) (mkProc name f), RegOk).
+  let h := handle_of_bytes name in
+  match reg_get r h with
+  | Some p => if name_eqb (pr_name p) name then (reg_insert r h (mkProc name f), RegOk) else (r, RegCollides)
+  | None => (reg_insert r h (mkProc name f), RegOk)
+  end.
 
 (* Vm::register_native_function (public) *)
 Definition register_public (r : registry) (name : list N) (f : hostfn) : registry * regres :=
   if starts_reserved name then (r, RegRejected) else register_private r name f.
+
+(* the answer alone: rejected exactly when the name starts with "__" or its handle is held by another name *)
+Definition register_answer (r : registry) (name : list N) : regres :=
+  if starts_reserved name then RegRejected
+  else match reg_get r (handle_of_bytes name) with
+       | Some p => if name_eqb (pr_name p) name then RegOk else RegCollides
+       | None => RegOk
+       end.
 
 Definition std_natives : list native := [NStdMin; NStdMax; NStdSort; NStdToArray].
 
@@ -68,13 +86,18 @@ Definition harness_menu : list native :=
 Definition menu_registry : registry :=
   fst (run_public vm_new_registry (map (fun n => (native_name n, StdFn n)) harness_menu)).
 
-(* call_native's lookup: `callables.get(handle)`; the procedure found decides which function runs and which name a
-   TaskFailure carries *)
-Definition accepted (op : list N * hostfn) : bool := negb (starts_reserved (fst op)).
+Definition is_ok (a : regres) : bool := match a with RegOk => true | _ => false end.
 
-(* the last accepted registration under handle h *)
-Definition last_accepted (ops : list (list N * hostfn)) (h : N) : option (list N * hostfn) :=
-  find (fun op => accepted op && N.eqb (handle_of_bytes (fst op)) h) (rev ops).
+(* the last registration of a history that was answered Ok(()) and whose name has the handle h *)
+Definition last_ok (ops : list (list N * hostfn)) (answers : list regres) (h : N) : option (list N * hostfn) :=
+  match find (fun oa => is_ok (snd oa) && N.eqb (handle_of_bytes (fst (fst oa))) h) (rev (combine ops answers)) with
+  | Some (op, _) => Some op
+  | None => None
+  end.
 
+(* ordinary names with the handle of a library native (found by a meet-in-the-middle search on FNV-1a-32) *)
+Definition name_collides_max : list N := [122; 106; 121; 108; 105; 113; 111]%N.       (* "zjyliqo"  ~ "__max" *)
+Definition name_collides_sort : list N := [99; 97; 116; 112; 112; 114; 110]%N.        (* "catpprn"  ~ "__sort" *)
+Definition name_collides_to_array : list N := [104; 99; 115; 118; 104; 102; 111]%N.   (* "hcsvhfo"  ~ "__to_array" *)
 (* "tuewgsg": an ordinary name with Handle::from_str("tuewgsg") = Handle::from_str("__min") = 1036830421 *)
 Definition name_collides_min : list N := [116; 117; 101; 119; 103; 115; 103]%N.
